@@ -27,7 +27,8 @@ import numpy as np
 import warnings
 
 from holopy.scattering.scatterer import Sphere, Spheroid, Cylinder
-from holopy.scattering.errors import TheoryNotCompatibleError, TmatrixFailure
+from holopy.scattering.errors import (
+    TheoryNotCompatibleError, TmatrixFailure, InvalidScatterer)
 from holopy.core.errors import DependencyMissing
 from holopy.scattering.theory.scatteringtheory import ScatteringTheory
 try:
@@ -70,7 +71,7 @@ class Tmatrix(ScatteringTheory):
     # FIXME why is S (scatterer, pos, ...) but fields are (pos, scatterer, ...)?
     def raw_scat_matrs(self, scatterer, pos, medium_wavevec, medium_index):
         args = self._parse_args(scatterer, pos, medium_wavevec, medium_index)
-        s = self._run_tmat(args)
+        s = self._run_tmat(args, scatterer)
         return s
 
     def _parse_args(self, scatterer, pos, medium_wavevec, medium_index):
@@ -110,12 +111,23 @@ class Tmatrix(ScatteringTheory):
         ndgs = 5
         alpha = scatterer.rotation[2] * 180 / np.pi
         beta = scatterer.rotation[1] * 180 / np.pi
+        # The Fortran code STOPs (ending the interpreter) unless
+        # 0 <= alpha <= 360 and 0 <= beta <= 180. An axisymmetric particle
+        # only cares about the direction of its axis, so bring any real
+        # Euler angles into that range first.
+        beta = beta % 360
+        if beta > 180:
+            beta = 360 - beta
+            alpha = alpha + 180
+        alpha = alpha % 360
 
         # FIXME: Why does the incident polarization have to be set to  (1, 0)?
         thet0 = 0
         thet = angles[:, 0]
         phi0 = 0
-        phi = angles[:, 1]
+        phi = angles[:, 1] % 360
+        if (thet < 0).any() or (thet > 180).any():
+            raise ValueError("Tmatrix needs polar angles in [0, pi]")
         nang = angles.shape[0]
 
         args = [axi, rat, lam, mrr, mri, eps, NP, ndgs, alpha, beta,
@@ -123,10 +135,14 @@ class Tmatrix(ScatteringTheory):
 
         return args
 
-    def _run_tmat(self, args):
+    def _run_tmat(self, args, scatterer=None):
         med_wavelen = args[2]
         nang = args[-1]
-        s11, s12, s21, s22 = ampld(*args)
+        s11, s12, s21, s22, not_converged = ampld(*args)
+        if not_converged:
+            msg = ("T-matrix calculation did not converge; the scatterer's " +
+                   "size or aspect ratio is too large for the T-matrix code.")
+            raise InvalidScatterer(scatterer, msg)
         for s in [s11, s12, s21, s22]:
             s *= (-2j*np.pi/med_wavelen)
         scat_matr = np.array([[s11, s12], [s21, s22]]).transpose()
